@@ -23,6 +23,7 @@ OL_CLASS_TMP: _ol_reserved_name = "__ol_class_{}"
 OL_IMPORT_TMP: _ol_reserved_name = "__ol_mod_{}"
 OL_ITERTOOLS: _ol_reserved_name = "__ol_itertools"  # don't need format here
 OL_IMPORTLIB: _ol_reserved_name = "__ol_importlib"  # don't need format here
+OL_OPERATOR: _ol_reserved_name = "__ol_operator"  # don't need format here
 OL_CLASS_MEMBER_NAME: _ol_reserved_name = "__ol_member_name"  # don't need format here
 OL_CLASS_MEMBER_VALUE: _ol_reserved_name = "__ol_member_value"  # don't need format here
 
